@@ -1237,7 +1237,28 @@ func IsFresh(base ssa.Value) bool {
 
 // ConstInt extracts an integer constant.
 func ConstInt(v ssa.Value) (int64, bool) {
-	c, ok := stripValue(v).(*ssa.Const)
+	sv := stripValue(v)
+	// arithmetic over constants that the SSA builder left unfolded (`limit := int64(Max); limit+1`)
+	if bo, isB := sv.(*ssa.BinOp); isB {
+		a, ok1 := ConstInt(bo.X)
+		b, ok2 := ConstInt(bo.Y)
+		if ok1 && ok2 {
+			switch bo.Op {
+			case token.ADD:
+				return a + b, true
+			case token.SUB:
+				return a - b, true
+			case token.MUL:
+				return a * b, true
+			case token.SHL:
+				if b >= 0 && b < 62 {
+					return a << uint(b), true
+				}
+			}
+		}
+		return 0, false
+	}
+	c, ok := sv.(*ssa.Const)
 	if !ok || c.Value == nil || c.Value.Kind() != constant.Int {
 		return 0, false
 	}
